@@ -45,13 +45,16 @@ Inductive vtree :=
 | VUnit                                                           (* () *)
 | VImage (id ph pw : N)                                           (* pixel height / width *)
 | VGlyph (id : N) (gh gw : nat) (fb : list N)
-| VProbe (id ph pw : N).                                          (* harness leaf: clamps its preferred size, paints
+| VProbe (id ph pw : N)                                           (* harness leaf: clamps its preferred size, paints
                                                                     its whole surface with its mark, records the shape *)
+| VSurface (h w : N) (c : ccell)                                  (* SurfaceView<Cell> of an h x w surface filled with c *)
+| VImageAscii (ih iw color : N)                                   (* ImageAsciiView of an ih x iw image of one colour *)
+| VRef (target : option vtree).                                   (* JSON "ref" (ViewCached): the cached view, if any *)
 
 Definition fchild : Type := (vtree * option positive * option face * align)%type.
 
 (* Layout: position, size, attached data (what the model needs of it) *)
-Inductive ldata := DNone | DTag (t : N) | DCt (c : ct).
+Inductive ldata := DNone | DTag (t : N) | DCt (c : ct) | DRef.
 Inductive ltree := LNode (r c h w : N) (data : ldata) (kids : list ltree).
 
 Definition l_row (t : ltree) : N := match t with LNode r _ _ _ _ _ => r end.
@@ -262,6 +265,13 @@ Fixpoint layout (vc : vctx) (v : vtree) (c : ct) {struct v} : outcome ltree :=
       if has_glyphs (v_r vc) then leaf_clamped c (N.of_nat gh) (N.of_nat gw)
       else text_layout_v vc (str_cells fb) true c
   | VProbe _ ph pw => leaf_clamped c ph pw
+  | VSurface h w _ => leaf_clamped c h w
+  | VImageAscii ih iw _ => leaf_clamped c (ih / 2 + ih mod 2) iw
+  | VRef None => Ok lnode0            (* the layout node is left as it was created *)
+  | VRef (Some v') =>
+      (* as repaired: the cached view gets a child node *)
+      let* t := layout vc v' c in
+      Ok (LNode 0 0 (l_hh t) (l_ww t) DRef [t])
   end.
 
 (* ---------- rendering ---------- *)
@@ -427,6 +437,29 @@ Fixpoint render (vc : vctx) (v : vtree) (t : ltree) (sh : shape) (s : rst) {stru
       let sub := apply_to sh t in
       let* d := fill_cells sub (r_data s) (mkCell face0 (KChar (61440 + id))) in
       Ok (mkR d (r_log s ++ [(id, sub)]))
+  | VSurface h w c =>
+      (* dst.view_mut(..height, ..width).fill_with(|pos, dst| dst.overlay(src[pos])) *)
+      let sub := apply_to sh t in
+      let hh := N.min (N.of_nat (sh_height sub)) h in
+      let ww := N.min (N.of_nat (sh_width sub)) w in
+      let area := Shape.view sub (resolve (sh_height sub) (To (Z.of_N hh))) (resolve (sh_width sub) (To (Z.of_N ww))) in
+      let* d := of_opt 1013 (fill_with area (r_data s) (fun _ _ old => cell_overlay old c)) in
+      Ok (mkR d (r_log s))
+  | VImageAscii ih iw color =>
+      let sub := apply_to sh t in
+      let px := fun (r c : nat) => if (N.of_nat r <? ih)%N && (N.of_nat c <? iw)%N then Some color else None in
+      let* d := of_opt 1014 (fill_with sub (r_data s)
+                               (fun r c _ => mkCell (mkFace (px (2 * r)%nat c) (px (2 * r + 1)%nat c) 0) (KChar 9600))) in
+      Ok (mkR d (r_log s))
+  | VRef None => Ok s
+  | VRef (Some v') =>
+      match l_data t with
+      | DRef => match l_kids t with
+                | k :: _ => render vc v' k (apply_to sh t) s
+                | [] => Err 1
+                end
+      | _ => Ok s
+      end
   end.
 
 (* ---------- FindPath (src/view/layout.rs:230-260) ---------- *)
